@@ -16,7 +16,13 @@ def main():
     rnames = [randforms.name_of(chk.seed, i) for i in range(12 if a.tier == "quick" else 160)] if not a.only else []
     run_cases(chk, "vlib.kernelprops", "purity", rnames, {"tier": "quick"}, a.jobs)
     chk.extra["random_forms"] = len(rnames)
-    chk.encoded("generated tabulate_tensor_* C text (all integral types) executed with symbolic initial A")
+    # expression kernels are kernels too (expression_generator.py)
+    from vlib import exprcheck
+    enames = exprcheck.select(quick=(a.tier == "quick")) + [f"randexpr:{chk.seed}:{i}" for i in range(8 if a.tier == "quick" else 120)]
+    if not a.only:
+        run_cases(chk, "vlib.exprcheck", "expr_purity", enames, {"tier": a.tier}, a.jobs)
+        chk.extra["expression_kernels"] = len(enames)
+    chk.encoded("generated tabulate_tensor_* C text (all integral types) executed with symbolic initial A", "generated tabulate_tensor_expression_* C text executed with symbolic initial A")
     chk.bounds = {"programs": len(names), "A0": "every initial A entry a free symbol", "inputs": "all symbolic",
                   "entities/permutations": "quick: 3 entity configs x 2 permutation pairs; thorough: all entity configs x up to 16 permutation pairs"}
     chk.assumptions = ["exact arithmetic", "thread-safety argued from: no writes except A/locals, no non-const statics, no file-scope objects referenced (not explored by interleaving)"]
